@@ -101,7 +101,7 @@ class Node:
 
 
 NAMES = ["a.txt", "Report Q1.PDF", "b.docx", "x y.pdf", "ü#1.Pdf", "100%.xlsx", "notes", "c.tar.gz", "d.pdf", "e&f.DOCX"]
-FOLDERS = ["Docs", "My Folder", "ä ö", "r#d", "2024-01", "sub", "100% real", "a+b"]
+FOLDERS = ["Docs", "My Folder", "ä ö", "r#d", "2024-01", "sub", "100% real", "a+b", "Q1%20Reports", "Q1 Reports", "Growth 50%25", "Growth 50%"]
 STAMPS = ["2024-01-15T10:30:00Z", "2024-01-15T10:30:00.5Z", "2024-01-15T10:30:00.250Z", "2024-01-15T10:30:00.999999Z",
           "2024-01-15T10:30:00.0000001Z", "2024-01-15T10:30:01Z", "2024-01-15T09:30:00.75-01:00", "2024-01-15T10:29:59.999Z",
           "2024-01-15T12:30:00.123456+02:00", None, "not a date"]
@@ -120,8 +120,14 @@ def random_tree(rnd, max_depth=3, max_items=6):
             r = rnd.random()
             if r < (0.45 if depth == 0 else 0.3) and depth < max_depth:
                 # a folder may carry a file facet as well (the folder facet wins: it is walked, never listed as a file)
-                ch = Node("folder", rnd.choice(FOLDERS) if rnd.random() < 0.95 else None, nid(),
-                          **({"file": {"mimeType": "application/x-folderish"}} if rnd.random() < 0.2 else {}))
+                fx = {"file": {"mimeType": "application/x-folderish"}} if rnd.random() < 0.2 else {}
+                # folders are drive items too: they carry their own (optional) timestamps, which say nothing about the
+                # files below them (editing a file in place does not touch the folder)
+                if rnd.random() < 0.7:
+                    fx["lastModifiedDateTime"] = rnd.choice(STAMPS[:9] + ["2023-06-01T00:00:00Z"])
+                if rnd.random() < 0.5:
+                    fx["createdDateTime"] = rnd.choice(STAMPS[:9] + ["2023-06-01T00:00:00Z"])
+                ch = Node("folder", rnd.choice(FOLDERS) if rnd.random() < 0.95 else None, nid(), **fx)
                 build(depth + 1, ch)
             elif r < 0.93:
                 extra = {}
@@ -277,6 +283,10 @@ class FakeGraph:
                 return FakeResponse(200, b'{"value": [', self.responses)
             if kind == "badutf8":
                 return FakeResponse(200, b"\xff\xfe{", self.responses)
+            if kind == "emptybody":          # body cut off before the first byte: not JSON either
+                return FakeResponse(200, b"", self.responses)
+            if kind == "blankbody":
+                return FakeResponse(200, b" \r\n\t ", self.responses)
             if kind.startswith("status"):
                 cls = OldStyleResponse if self.rnd.random() < 0.3 else FakeResponse
                 return cls(int(kind[6:]) if kind[6:] != "None" else None, b"redirect / error page", self.responses)
@@ -289,7 +299,8 @@ class FakeGraph:
         return cls(status, body, self.responses)
 
 
-FAULT_KINDS = ["http404", "http401", "http500", "http503", "urlerror", "badjson", "badutf8", "status302", "status500", "statusNone"]
+FAULT_KINDS = ["http404", "http401", "http500", "http503", "urlerror", "badjson", "badutf8", "emptybody", "blankbody", "status302", "status500",
+               "statusNone"]
 
 
 def make_client(graph):
@@ -596,7 +607,7 @@ def crafted_tree():
     ids = iter(f"C{i:02d}" for i in range(100))
 
     def folder(name, files, subs=()):
-        f = Node("folder", name, next(ids))
+        f = Node("folder", name, next(ids), createdDateTime="2023-06-01T00:00:00Z", lastModifiedDateTime="2023-06-01T08:00:00.5Z")
         for fn in files:
             early, late = "2024-01-15T10:29:59.5Z", "2024-01-15T10:30:00.5Z"
             flip = len(fn) % 2 == 0          # some files created before / modified after the bound, some the other way round
@@ -608,12 +619,16 @@ def crafted_tree():
                      folder("Reports", ["r1.pdf", "r2.txt"], [folder("Drafts", ["draft.pdf"])]),
                      folder("Reports 2024", ["q1.pdf", "q2.pdf"], [folder("Final", ["final.pdf"])]),
                      folder("Docs", [], [folder("Q1", ["a.pdf"]), folder("Q10", ["b.pdf", "c.txt"]), folder("Q1 & Q2", ["d.pdf"])]),
-                     folder("Archive", ["old.pdf"])]
+                     folder("Archive", ["old.pdf"]),
+                     # names with a literal percent escape next to the folder the escape decodes to
+                     folder("Q1%20Reports", ["enc.pdf"], [folder("Deep%2Fer", ["deep.pdf"])]), folder("Q1 Reports", ["plain.pdf"]),
+                     folder("Growth 50%25", ["g25.pdf"]), folder("Growth 50%", ["g.pdf"])]
     return root
 
 
 CRAFTED_TARGETS = [["Reports", "Reports 2024"], ["Reports 2024", "Reports"], ["Docs/Q1", "Docs/Q10", "Docs/Q1 & Q2"], ["Docs/Q10", "Archive", "Docs/Q1"],
-                   ["Archive"], ["Reports/Drafts", "Reports 2024/Final", "nope"], ["Docs", "Reports"]]
+                   ["Archive"], ["Reports/Drafts", "Reports 2024/Final", "nope"], ["Docs", "Reports"],
+                   ["Q1%20Reports"], ["Growth 50%25", "Q1 Reports"], ["Growth 50%", "Q1%20Reports/Deep%2Fer"], ["Q1%2520Reports"]]
 
 
 def check_crafted(targets=None, extra_filter=None):
@@ -697,6 +712,9 @@ def listing_filters():
         {"folder_paths": ["Docs", "My Folder", "missing/none"], "extensions": [".pdf", ".txt"]},
         {"folder_paths": ["ä ö", "r#d", "100% real", "a+b", "Docs/sub"]},
         {"folder_paths": ["/Docs/"], "modified_after": b + timedelta(microseconds=999999)},
+        {"folder_paths": ["Q1%20Reports", "Growth 50%25", "Q1 Reports", "Growth 50%"]},
+        {"modified_after": b - timedelta(seconds=1)},
+        {"modified_after": b + timedelta(microseconds=250000), "extensions": [".pdf", ".txt", ".docx"]},
     ]
 
 
@@ -749,6 +767,13 @@ def find(req):
     ob = req.get("obligation") or ""
     if req.get("known_finding") == "C18-overlapping-targets":
         return check_known_overlap(req.get("witness"))
+    if req.get("suite"):
+        r = suite(quick=True) if req["suite"] == "quick" else suite(seeds=range(12), fault_seeds=range(5))
+        if r is None:
+            return {"reproduced": False, "note": "native suite agrees with the reference (libraries of depth <= 3, <= 6 items per folder, page sizes 1..4, "
+                                                 "12 fault kinds at every request index, crafted prefix / percent-escape siblings)"}
+        r["reproduced"] = True
+        return r
     if "get_target_folders" in ob or "_since" in ob:
         r = (check_target_folders() if "get_target_folders" in ob else None) or check_crafted()
         if r is None:
